@@ -340,6 +340,7 @@ func docStream(seed uint64, family string, n int, wild bool, f func(idx int, kin
 // upper-case names and several lines, maximum-length numeric references, breaks in all spellings; then a random
 // line-ending style, an optional container and an optional missing final newline.
 var richLabels = []string{"foo", "ba\nr", "ba r", "C:\\a", "v\\2", "foo\\ ", "a  b", "Foo", "ẞ", "x\\]y", "logo", "ref"}
+
 // longLabel: a legal label of about n characters wrapped over lines of w letters.
 func longLabel(n, w int) string {
 	var sb strings.Builder
